@@ -10,6 +10,7 @@ import (
 	"strings"
 	"sync"
 	"testing"
+	"time"
 
 	bip39 "github.com/islishude/bip39"
 	"pgregory.net/rapid"
@@ -525,5 +526,153 @@ func TestC07_Faulty(t *testing.T) {
 				}
 			}
 		}
+	}
+}
+
+// c07.global-replaced: crypto/rand.Reader (the exported variable) is replaced after start-up by a
+// reader that delivers k bytes of a fixed pattern and then fails, while the library's own source
+// is left alone. The library may keep using the reader it captured at start-up (ordinary random
+// output) or follow the variable (then it must fail closed); it may not return a sentence made
+// of the pattern bytes and zeros, or of fewer than 4n/3 source bytes.
+type globalReplacedCase struct {
+	Lang  string `json:"lang"`
+	N     int    `json:"n"`
+	After int    `json:"after"`
+	Err   string `json:"err"`
+}
+
+var c07GlobalCheck = register("C07", "c07.global-replaced", func(c *globalReplacedCase) error {
+	l := mustLang(c.Lang)
+	need := c.N / 3 * 4
+	orig := rand.Reader
+	fr := &brokenSource{left: c.After, err: eventErr(c.Err)}
+	rand.Reader = fr
+	got, err, p := implNew(c.N, implLang[l])
+	rand.Reader = orig
+	sig := "C07 global-replaced"
+	if p != nil {
+		return failf(sig+" panic", "NewMnemonic(%d, %s) panicked: %v", c.N, l, p)
+	}
+	if got == "" && err != nil {
+		return nil // follows the variable and fails closed
+	}
+	e, sumOK, derr := ref.Decode(l, got)
+	if err != nil || derr != nil || !sumOK || len(e) != need {
+		return failf(sig+" invalid", "with crypto/rand.Reader replaced by a reader failing after %d bytes, NewMnemonic(%d, %s) = (%q, %v)", c.After, c.N, l, got, err)
+	}
+	pattern := make([]byte, need)
+	(&brokenSource{left: c.After}).Read(pattern)
+	if bytes.Equal(e, pattern) || suspiciousRun(e) != "" {
+		return failf(sig+" substituted", "with crypto/rand.Reader replaced by a reader that delivers %d of %d bytes and then fails with %v, NewMnemonic(%d, %s) returned %q with a nil error: entropy %x is the partly filled buffer", c.After, need, fr.err, c.N, l, got, e)
+	}
+	return nil
+})
+
+func TestC07_GlobalReplaced(t *testing.T) {
+	cov.Rule(c07Rule + " || (d) the exported variable crypto/rand.Reader replaced after start-up by a reader failing after k bytes (library source untouched): either ordinary random output from the reader captured at start-up, or (\"\", error); never a sentence made of a partly filled buffer")
+	item := 0
+	for _, l := range allLangs() {
+		for _, n := range ref.Counts {
+			for _, kind := range []string{"EOF", "custom", "EAGAIN", "ENOSYS"} {
+				for _, after := range []int{0, 1, n/3*4 - 1} {
+					item++
+					c := &globalReplacedCase{Lang: l.Name(), N: n, After: after, Err: kind}
+					cov.Eval(1)
+					cov.Class("global-reader-replaced")
+					cov.NonTrivial("c07.global", []byte(fmt.Sprint(*c)))
+					if item == 5 {
+						cov.Sample("c07.global-replaced", c)
+					}
+					judge(t, "c07.global-replaced", c07GlobalCheck, c)
+				}
+			}
+		}
+	}
+}
+
+// c07.slow: the default source behind a wrapper whose first Read takes a long time (a blocked
+// getrandom at early boot, a hardware token). Whatever the call returns must be made of the
+// bytes the source delivered: (encoding of those bytes, nil), or no sentence and an error.
+type slowCase struct {
+	Lang    string `json:"lang"`
+	N       int    `json:"n"`
+	Seconds int    `json:"seconds"`
+}
+
+type slowReader struct {
+	r     io.Reader
+	delay time.Duration
+	slept bool
+	taken bytes.Buffer
+	mu    sync.Mutex
+}
+
+func (s *slowReader) Read(p []byte) (int, error) {
+	s.mu.Lock()
+	first := !s.slept
+	s.slept = true
+	s.mu.Unlock()
+	if first {
+		time.Sleep(s.delay)
+	}
+	n, err := s.r.Read(p)
+	s.mu.Lock()
+	s.taken.Write(p[:n])
+	s.mu.Unlock()
+	return n, err
+}
+
+var c07SlowCheck = register("C07", "c07.slow", func(c *slowCase) error {
+	l := mustLang(c.Lang)
+	need := c.N / 3 * 4
+	src := &slowReader{delay: time.Duration(c.Seconds) * time.Second}
+	prev := bip39.VerifSwapRandSource(src)
+	src.r = prev
+	got, err, p := implNew(c.N, implLang[l])
+	bip39.VerifSwapRandSource(prev)
+	src.mu.Lock()
+	drawn := append([]byte(nil), src.taken.Bytes()...)
+	src.mu.Unlock()
+	sig := "C07 slow-source"
+	if p != nil {
+		return failf(sig+" panic", "NewMnemonic(%d, %s) panicked: %v", c.N, l, p)
+	}
+	if got == "" && err != nil {
+		cov.Class("gave-up-on-slow-source")
+		return nil
+	}
+	if err != nil || len(drawn) < need || got != ref.Encode(drawn[:need], l) {
+		return failf(sig, "the default source needed %d s for its first Read; NewMnemonic(%d, %s) returned (%q, %v) when the source had delivered %d bytes (%x): not the encoding of the source's bytes", c.Seconds, c.N, l, got, err, len(drawn), drawn)
+	}
+	return nil
+})
+
+func TestC07_Slow(t *testing.T) {
+	cov.Rule(c07Rule + " || (e) the default source behind a wrapper whose first Read takes 12 s (thorough: also 35 s and 65 s): the result must be the encoding of the bytes it delivered, or an error without a sentence")
+	secs := []int{12}
+	if thorough() {
+		secs = []int{12, 35, 65}
+	}
+	var wg sync.WaitGroup
+	errs := make([]error, len(secs))
+	cases := make([]*slowCase, len(secs))
+	for i, sec := range secs {
+		cases[i] = &slowCase{Lang: ref.Lang(i * 3 % int(ref.NumLangs)).Name(), N: ref.Counts[i%5], Seconds: sec}
+	}
+	// one after the other: the source is a process-wide setting
+	for i := range cases {
+		wg.Add(1)
+		func(i int) {
+			defer wg.Done()
+			errs[i] = c07SlowCheck(cases[i])
+		}(i)
+	}
+	wg.Wait()
+	for i := range cases {
+		cov.Eval(1)
+		cov.Class("slow-default-source")
+		cov.NonTrivial("c07.slow", []byte(fmt.Sprint(*cases[i])))
+		cov.Sample("c07.slow", cases[i])
+		judge(t, "c07.slow", func(*slowCase) error { return errs[i] }, cases[i])
 	}
 }
